@@ -108,6 +108,9 @@ type rawServer struct {
 	curRaw net.Conn // the TCP connection underneath
 	curWS  *websocket.Conn
 	curN   int
+	// fault "refuse": new sessions are answered with 'failed' until this moment; how many tried
+	refuseUntil time.Time
+	attempts    int32
 }
 
 // ServeHTTP: the websocket flavour of the scripted server (one text message per envelope)
@@ -186,6 +189,15 @@ func (s *rawServer) session(raw net.Conn) {
 	var first map[string]interface{}
 	c.SetReadDeadline(time.Now().Add(3 * time.Second))
 	if err := dec.Decode(&first); err != nil {
+		c.Close()
+		return
+	}
+	s.mu.Lock()
+	refusing := time.Now().Before(s.refuseUntil)
+	s.mu.Unlock()
+	if refusing { // a reachable server that does not want this client for the moment
+		atomic.AddInt32(&s.attempts, 1)
+		fmt.Fprintf(c, `{"id":"5e551041-0000-4000-8000-00000000dead","from":"postmaster@example.com/srv","state":"failed","reason":{"code":13,"description":"not now"}}`+"\n")
 		c.Close()
 		return
 	}
@@ -273,6 +285,11 @@ func (s *rawServer) inject(fault string) {
 	case "finish":
 		s.write([]byte(fmt.Sprintf(`{"id":%q,"from":"postmaster@example.com/srv","state":"finished"}`, sid)))
 	case "fail":
+		s.write([]byte(fmt.Sprintf(`{"id":%q,"from":"postmaster@example.com/srv","state":"failed","reason":{"code":1,"description":"gone"}}`, sid)))
+	case "refuse": // fails the session and turns the client away for a while
+		s.mu.Lock()
+		s.refuseUntil = time.Now().Add(1200 * time.Millisecond)
+		s.mu.Unlock()
 		s.write([]byte(fmt.Sprintf(`{"id":%q,"from":"postmaster@example.com/srv","state":"failed","reason":{"code":1,"description":"gone"}}`, sid)))
 	case "abrupt":
 		raw.Close()
@@ -423,6 +440,9 @@ func Replay(c Case) Result {
 			}
 		}
 		r.log(Event{K: "rate", N: int(maxRate)})
+		if c.Cfg.Fault == "refuse" {
+			r.log(Event{K: "attempts", N: int(atomic.LoadInt32(&srv.attempts))})
+		}
 		if recovered {
 			time.Sleep(5 * time.Millisecond)
 			tag := fmt.Sprintf("push-%d", round+1)
